@@ -395,8 +395,10 @@ spif_ustr_append(spif_ustr_t self, spif_ustr_t other)
         }
         self->size += other->size - 1;
         self->s = (spif_charptr_t) REALLOC(self->s, self->size);
-        memcpy(self->s + self->len, SPIF_USTR_STR(other), other->len + 1);
+        /* The terminator is written separately:  when other is self its NUL sits exactly where the copy starts. */
+        memcpy(self->s + self->len, SPIF_USTR_STR(other), other->len);
         self->len += other->len;
+        self->s[self->len] = 0;
     }
     return TRUE;
 }
